@@ -1,5 +1,6 @@
 import TRV.Proofs.Drivers
 import TRV.Proofs.Engine
+import TRV.Proofs.Link
 /-!
 # C09 — Malformed or hostile inbound bytes never crash or abort a run
 
@@ -28,6 +29,21 @@ theorem c09_tcp_never_fatal (s : TcpSt) (pkt : Bytes) (h : pkt ≠ []) (hs : s.s
 
 theorem c09_sack_never_fatal (s : SackSt) (pkt : Bytes) (h : pkt ≠ []) : sackRecv s pkt ≠ .fatal :=
   sackRecv_class s pkt h
+
+/-- **From frames**: whatever frames the kernel queues on the capture socket — runts, frames with
+    nothing behind the Ethernet header, other EtherTypes, anything — a read of the capture source
+    (after the `fix:` for finding F13) hands the drivers a NON-EMPTY packet, so the outcome of every
+    matcher on it is `accept` or `retry` (and `notSupported` in the one SACK case), never `fatal`.
+    Before the fix a 14-byte IP frame came back as a zero-length read and a shorter one as a decoder
+    error, and either aborted the run. -/
+theorem c09_frames_never_fatal (q : List Bytes) (p : Bytes) (rest : List Bytes)
+    (h : Link.readNext q = some (p, rest)) :
+    p ≠ [] ∧
+    (∀ s : IcmpSt, icmpRecv s p ≠ .fatal) ∧ (∀ s : UdpSt, udpRecv s p ≠ .fatal) ∧
+    (∀ s : TcpSt, s.sent ≠ [] → tcpRecv s p ≠ .fatal) ∧ (∀ s : SackSt, sackRecv s p ≠ .fatal) := by
+  have hne := TRV.Proofs.Link.readNext_nonempty q p rest h
+  exact ⟨hne, fun s => (c09_icmp_never_fatal s p hne).1, fun s => (c09_udp_never_fatal s p hne).1,
+    fun s hs => (c09_tcp_never_fatal s p hne hs).1, fun s => c09_sack_never_fatal s p hne⟩
 
 /-- the only inbound packet that may end a run early: the target acknowledging on the probed
     connection (reversed tuple, not SYN/FIN/RST) without any SACK block -/
@@ -86,6 +102,7 @@ example :
 #print axioms c09_udp_never_fatal
 #print axioms c09_tcp_never_fatal
 #print axioms c09_sack_never_fatal
+#print axioms c09_frames_never_fatal
 #print axioms c09_sack_abort_iff
 #print axioms c09_noise_irrelevant_parallel
 #print axioms c09_noise_irrelevant_serial
